@@ -43,6 +43,13 @@ var wops = map[string]func(c Case, w io.Writer) error{
 	"toma": func(c Case, w io.Writer) error {
 		return sam.ToMultiAlign(bytes.NewReader(b64(c, "sam")), w, integer(c, "wrap", 0), integer(c, "start", -1), integer(c, "end", -1), boolean(c, "pad"), integer(c, "threads", 1))
 	},
+	// sam indels writes to two destinations: the fault is injected into one of them, the other accepts everything
+	"indels_ins": func(c Case, w io.Writer) error {
+		return sam.Indels(bytes.NewReader(b64(c, "sam")), w, io.Discard, integer(c, "threshold", 1))
+	},
+	"indels_del": func(c Case, w io.Writer) error {
+		return sam.Indels(bytes.NewReader(b64(c, "sam")), io.Discard, w, integer(c, "threshold", 1))
+	},
 	"samvariants": func(c Case, w io.Writer) error {
 		return sam.Variants(bytes.NewReader(b64(c, "sam")), bytes.NewReader(b64(c, "ref")), boolean(c, "ref_from_file"), bytes.NewReader(b64(c, "anno")), str(c, "suffix"), w,
 			integer(c, "start", -1), integer(c, "end", -1), boolean(c, "aggregate"), float(c, "threshold", 0), boolean(c, "append_snps"), integer(c, "threads", 1))
